@@ -893,7 +893,7 @@ META = {
         'AsynConn (scripted FakeConn: readline/send/shutdown/disconnect with the error behaviour of a TCP socket)',
         'decode_msg / encode_msg_frame, the cache update of update-class messages, callbacks',
         'connect() / _reconnect / the cancel event of the reconnect thread (exercised by the harness, not part of any model)',
-        'timed layer and shutdown-protocol model: transcribed from the source, not replayed against runs',
+        'timed layer: transcribed from the source, not replayed against runs',
     ],
     'assumptions': ['request identifiers are not "." (the rx thread maps "." to None)',
                     'replies carry no request id: a line that matches syntactically and arrives while the request is filed is its '
